@@ -156,7 +156,9 @@ TVReset == /\ l <= Len(Rec) /\ Rec[l].ev = "reset"
 \* nothing dispatched, nothing answered, no hang
 CutViol(e) ==
     LET tag == "c=" \o Str(e.c) \o "/at=" \o (IF e.cut = 0 THEN "0" ELSE IF e.cut < HDR_SIZE THEN "header" ELSE IF e.cut = HDR_SIZE THEN "header-end" ELSE "body") IN
-    (IF e.ncalls # 0 THEN {"C08/backend/truncated-request-dispatched/" \o tag} ELSE {})
+    (IF e.ncalls # 0 THEN {"C08/backend/truncated-request-dispatched/" \o tag,
+                           \* in terms of C05: the handler was invoked with bytes that were never received
+                           "C05/handler-invoked-for-truncated-request/c=" \o Str(e.c)} ELSE {})
     \cup (IF e.nout # 0 THEN {"C08/backend/truncated-request-answered/" \o tag} ELSE {})
     \cup (IF e.res = "ok" THEN {"C08/backend/truncation-not-reported/" \o tag}
           ELSE IF e.res = "panic" THEN {"C05/panic/c=" \o Str(e.c) \o "/var=cut"}
